@@ -655,8 +655,11 @@ func oneCase(r *mon.Rec, i int, isTyped func(int) bool, typedList []int) {
 			run(r, b.entry, 0, b.b, "label-web")
 		}
 		w = reflabel.Boundary(rng)
-		if rng.IntN(3) == 0 {
+		switch rng.IntN(4) {
+		case 0:
 			w = reflabel.FarPointer(rng)
+		case 1:
+			w = reflabel.ManyPointers(rng)
 		}
 		run(r, "rfc1035label.FromBytes", 0, w, "label-boundary")
 		for _, b := range wrapNames(w) {
